@@ -627,7 +627,10 @@ pub fn div<
     if T::is_int() {
         check_nonzero(&b)?;
     }
-    match (T::is_int(), b.item()) {
+    // The scalar fast path is only valid if broadcasting with the divisor's
+    // shape does not add dimensions to the output.
+    let scalar_divisor = b.item().filter(|_| b.ndim() <= a.ndim());
+    match (T::is_int(), scalar_divisor) {
         // Optimize division as multiplication-by-reciprocal.
         //
         // This loses some precision, so we might want to revisit this in future.
